@@ -35,8 +35,11 @@ fn a(s: &str) -> Alias {
 /// add nothing (an empty `all` group, an absent option) — only when there is a real condition, because a
 /// lone empty `all` renders `WHERE TRUE`.
 fn add_wheres<T: ConditionalStatement>(q: &mut T, ws: &[X]) {
+    // an empty `all` merged next to a negated group is rendered as `.. AND TRUE` (same meaning, other text):
+    // a statement gets either the do-nothing calls or the negated-group route
+    let with_noops = route(2) == 0;
     let noop = |q: &mut T| {
-        if route(6) == 0 {
+        if with_noops && route(6) == 0 {
             match route(3) {
                 0 => {
                     q.cond_where(Condition::all());
@@ -54,6 +57,14 @@ fn add_wheres<T: ConditionalStatement>(q: &mut T, ws: &[X]) {
         noop(q);
     }
     for w in ws {
+        if let X::Not(inner) = w {
+            if !with_noops && route(2) == 0 {
+                // NOT e as a negated group holding e
+                q.cond_where(Condition::all().add(inner.build()).not());
+                noop(q);
+                continue;
+            }
+        }
         match route(4) {
             0 => {
                 q.and_where(w.build());
